@@ -196,7 +196,9 @@ fn pure(out: &mut Out, rng: &mut Rng, n: u64) {
 // ---------------------------------------------------------------------------------------------
 const USERS4: [&str; 4] = ["alice", "bob", "carol", "donor"];
 #[derive(Clone, Debug)]
-pub enum Op { Provide { u: usize, d: [u128; 2] }, Withdraw { u: usize, amount: u128 }, Swap { u: usize, i: usize, x: u128, ms: Option<u128> }, Collect, Donate { i: usize, x: u128 } }
+pub enum Op { Provide { u: usize, d: [u128; 2] }, Withdraw { u: usize, amount: u128 }, Swap { u: usize, i: usize, x: u128, ms: Option<u128> }, Collect, Donate { i: usize, x: u128 },
+              /// the owner's UpdateConfig { pool_fees } (protocol, swap, burn)
+              SetFees { f: (u128, u128, u128) } }
 impl Op {
     fn coq(&self) -> String {
         match self {
@@ -205,6 +207,7 @@ impl Op {
             Op::Swap { u, i, x, ms } => format!("Swap2 {}%nat {} {} {}", u, i, x, match ms { Some(m) => format!("(Some {})", m), None => "None".into() }),
             Op::Collect => "Collect2".into(),
             Op::Donate { i, x } => format!("Donate2 {} {}", i, x),
+            Op::SetFees { f } => format!("SetFees2 (mkFees {} {} {})", f.0, f.1, f.2),
         }
     }
     fn json(&self) -> serde_json::Value {
@@ -214,9 +217,10 @@ impl Op {
             Op::Swap { u, i, x, ms } => json!({"op": "swap", "user": USERS4[*u], "offer_index": i, "offer": x.to_string(), "max_spread_atomics": ms.map(|m| m.to_string())}),
             Op::Collect => json!({"op": "collect"}),
             Op::Donate { i, x } => json!({"op": "donate", "index": i, "amount": x.to_string()}),
+            Op::SetFees { f } => json!({"op": "set_fees", "fees_protocol_swap_burn": [f.0.to_string(), f.1.to_string(), f.2.to_string()]}),
         }
     }
-    fn kind(&self) -> &'static str { match self { Op::Provide { .. } => "provide", Op::Withdraw { .. } => "withdraw", Op::Swap { .. } => "swap", Op::Collect => "collect", Op::Donate { .. } => "donate" } }
+    fn kind(&self) -> &'static str { match self { Op::Provide { .. } => "provide", Op::Withdraw { .. } => "withdraw", Op::Swap { .. } => "swap", Op::Collect => "collect", Op::Donate { .. } => "donate", Op::SetFees { .. } => "set_fees" } }
 }
 
 #[derive(Clone, PartialEq, Debug)]
@@ -253,6 +257,11 @@ fn exec(w: &mut PairWorld, op: &Op) -> Result<(), String> {
             guarded(|| w.swap(USERS4[*u], *i, *x, None, ms.map(|m| Decimal::new(m.into())), if rc != *u { Some(USERS4[rc].to_string()) } else { None })).map(|_| ()) }
         Op::Collect => guarded(|| w.collect("bob")).map(|_| ()),
         Op::Donate { i, x } => guarded(|| w.donate("donor", *i, *x)).map(|_| ()),
+        Op::SetFees { f } => {
+            let msg = white_whale_std::pool_network::pair::ExecuteMsg::UpdateConfig { owner: None, fee_collector_addr: None, pool_fees: Some(pool_fee(f.0, f.1, f.2)), feature_toggle: None };
+            let pair = w.pair.clone();
+            guarded(|| cw_multi_test::Executor::execute_contract(&mut w.app, cosmwasm_std::Addr::unchecked(OWNER), pair.clone(), &msg, &[])).map(|_| ())
+        }
     }
 }
 
@@ -324,9 +333,23 @@ pub fn run_history(out: &mut Out, rng: &mut Rng, h: &History) {
     // deposit-then-withdraw: what a user put in by a deposit and got back by withdrawing exactly the LP minted for it
     let mut last_provide: Option<(usize, [u128; 2], u128, [u128; 2], u128)> = None;
     let mut k = 0usize;
+    // the fee schedule in force (UpdateConfig may change it mid-history); the monitors judge every step by it
+    let mut hc = History { amp: h.amp, dp: h.dp, fees: h.fees, kinds: h.kinds, fixed: None, len: 0 };
+    // fee changes come from a generator state of their own and only in every second generated history, so the other histories stay what they were
+    let mut side = Rng::new(h.amp ^ (h.fees.0 as u64).rotate_left(7) ^ (h.fees.1 as u64).rotate_left(29) ^ (h.len as u64) << 3 ^ 0x5345_5446);
+    let fee_changes = h.fixed.is_none() && side.chance(1, 2);
+    let mut just_changed = true;
     loop {
         let before = snap(&w);
-        let op = if let Some(f) = &h.fixed { match f.get(k) { Some(o) => o.clone(), None => break } }
+        let op = if fee_changes && !just_changed && k >= 2 && k < h.len && side.chance(1, 7) {
+                     just_changed = true;
+                     let valid = !side.chance(1, 8);
+                     let mut nf = fee_triple(&mut side, valid);
+                     if side.chance(1, 2) { nf.0 = 0; }
+                     k -= 1;
+                     Op::SetFees { f: nf }
+                 }
+                 else if let Some(f) = &h.fixed { match f.get(k) { Some(Op::Withdraw { u, amount: u128::MAX }) => Op::Withdraw { u: *u, amount: before.lp[*u] }, Some(o) => o.clone(), None => break } }
                  else if k >= h.len { break }
                  else if k == 0 {
                      let one = [10u128.pow(h.dp.0 as u32), 10u128.pow(h.dp.1 as u32)];
@@ -347,10 +370,12 @@ pub fn run_history(out: &mut Out, rng: &mut Rng, h: &History) {
                                                          s.protocol_fee_amount.to_string(), s.burn_fee_amount.to_string()], Err(_) => vec!["1".into()] };
             out.case("c14_sim2", &input, &o, rp.clone());
         }
+        if !matches!(op, Op::SetFees { .. }) { just_changed = false; }
         let r = exec(&mut w, &op);
         let after = snap(&w);
+        if let (Ok(_), Op::SetFees { f }) = (&r, &op) { hc.fees = *f; out.count(if f.0 == 0 { "pool:fees_changed_protocol_zero" } else { "pool:fees_changed" }); }
         out.count(&format!("pool:{}:{}", op.kind(), match &r { Ok(_) => "ok", Err(e) => if fail_class(e).is_none() { "panic" } else { "rejected" } }));
-        monitors(out, h, &op, r.is_ok(), &before, &after, &rp);
+        monitors(out, &hc, &op, r.is_ok(), &before, &after, &rp);
         if let (Some(q), Ok(_), Op::Swap { i, .. }) = (&quote, &r, &op) {
             let u = &receiver(&op).unwrap();
             out.monitor_evals += 1;
@@ -440,6 +465,23 @@ pub fn histories(out: &mut Out, rng: &mut Rng, n: u64) {
             Op::Swap { u: 2, i: 0, x: 10u128.pow(18), ms: Some(DEC / 2) },
             Op::Withdraw { u: 0, amount: 1_000_000 },
         ]) },
+        // one asset is bought out of the pool until it is scarce (the protocol fees of those swaps are pending in it, several per cent
+        // of its reserve); the owner then switches the protocol fee off; deposits of the abundant asset follow, then the depositor leaves
+        History { amp: 100, dp: (6, 6), fees: (5 * DEC / 1000, DEC / 1000, 0), kinds: [false, true], len: 0, fixed: Some(vec![
+            Op::Provide { u: 0, d: [1_000_000_000, 1_000_000_000] },
+            Op::Provide { u: 1, d: [20_000_000, 5_000_000] },
+            Op::Swap { u: 2, i: 1, x: 900_000_000, ms: Some(DEC / 2) },
+            Op::Swap { u: 2, i: 1, x: 150_000_000, ms: Some(DEC / 2) },
+            Op::Provide { u: 1, d: [1_000, 10_000_000] },
+            Op::SetFees { f: (0, DEC / 1000, 0) },
+            Op::Provide { u: 1, d: [1_000, 10_000_000_000] },
+            Op::Withdraw { u: 1, amount: u128::MAX },      // = everything the user holds (resolved when the step runs)
+            Op::SetFees { f: (DEC / 100, 0, DEC / 1000) },
+            Op::Swap { u: 2, i: 0, x: 40_000_000, ms: Some(DEC / 2) },
+            Op::SetFees { f: (0, 0, 0) },
+            Op::Provide { u: 1, d: [10_000_000_000, 1_000] },
+            Op::Withdraw { u: 1, amount: u128::MAX },
+        ]) },
     ];
     for mut h in corpus {
         // the literal LP amount minted to bob in the first corpus history (amp 100, decimals (6,18)): computed once through the hook
@@ -493,6 +535,7 @@ fn replay(args: &Args, path: &str) {
                 "withdraw" => Op::Withdraw { u: uidx(&o["user"]), amount: us(&o["lp"]) },
                 "swap" => Op::Swap { u: uidx(&o["user"]), i: u6(&o["offer_index"]) as usize, x: us(&o["offer"]), ms: if o["max_spread_atomics"].is_null() { None } else { Some(us(&o["max_spread_atomics"])) } },
                 "collect" => Op::Collect,
+                "set_fees" => Op::SetFees { f: (us(&o["fees_protocol_swap_burn"][0]), us(&o["fees_protocol_swap_burn"][1]), us(&o["fees_protocol_swap_burn"][2])) },
                 _ => Op::Donate { i: u6(&o["index"]) as usize, x: us(&o["amount"]) },
             }).collect();
             let f = &fi["fees_protocol_swap_burn"];
